@@ -204,6 +204,17 @@ def make_operation_document(rng: random.Random, version: str, *, with_security=F
         name = "qc" if location == "query" else "X-C"
         desc[location][name] = (schema, True)
         params.append({"name": name, "in": location, "required": True, "content": {"application/json": {"schema": adapt(schema, version)}}})
+    if three and rng.random() < 0.25:
+        # a header / cookie described only by combinators over non-string types (no `type` of its own)
+        location = rng.choice(["header", "cookie"])
+        schema = rng.choice([
+            {"allOf": [{"type": "integer"}, {"minimum": 1, "maximum": 100}]},
+            {"allOf": [{"type": "number"}, {"enum": [1.5, 2.5]}]},
+            {"anyOf": [{"type": "integer", "minimum": 5}, {"type": "boolean"}]},
+        ])
+        name = "X-AO" if location == "header" else "cao"
+        desc[location][name] = (schema, True)
+        params.append({"name": name, "in": location, "required": True, "schema": copy.deepcopy(schema)})
     method = "get"
     op = {"responses": {"200": {"description": "ok"}}}
     if rng.random() < 0.7:
